@@ -107,6 +107,8 @@ class Layouts:
                 return ("complete", self.term_of_callable(a[0], depth + 1))
             if n == "nom::combinator::cond" and len(a) == 2:
                 return ("cond", a[0], self.term_of_callable(a[1], depth + 1))
+            if n == "nom::combinator::success" and len(a) == 1:
+                return ("value", a[0])          # consumes nothing, yields the given value (= nom-derive `Value(..)`)
             if n == "nom::combinator::opt" and len(a) == 1:
                 return ("opt", self.term_of_callable(a[0], depth + 1))
             return ("unknown", "combinator %s" % n)
